@@ -15,6 +15,7 @@ import FluteModel.Sched
     complete                                                                                          -> ok
     read <t> (<toi>:<tick>)*       -> [+toi|-toi ]* (pkt <prio> <toi> <idx> <B> | fdt <id> <idx> [L <tois>] | none)
     nb_objects | is_added <toi> | nb_transfers <toi>
+    probe ...     engine-only scenario with a fault-injecting STREAM source (the model has buffer sources only) -> ok
 -/
 namespace Flute.Drv.Sched
 open Flute Flute.Sched
@@ -116,6 +117,7 @@ def step (d : D) (args : List String) : D × String :=
     match nats? ns with
     | some t => ({ d with tbl := t }, "ok")
     | none => (d, "bad-op")
+  | "probe" :: _ => (d, "ok")   -- engine-only scenario (failing stream source): nothing to model, see probe.rs
   | "new" :: m :: ck :: rest =>
     match nats? rest with
     | some (cd :: dur :: sid :: _il :: _efdt :: fits :: nq :: qs) =>
